@@ -15,6 +15,7 @@ import Qentem.Proofs.NumToStrDefaultGe1
 import Qentem.Proofs.NumToStrDefaultFrac
 import Qentem.Proofs.NumToStrFixedLt1
 import Qentem.Proofs.NumToStrDefaultLt1
+import Qentem.Proofs.NumToStrFloat32
 /-! C10 — number to text equals the reference formatting for every value and precision.
 
 Model: `Qentem.NumToStr` (transcription of `Digit.hpp`), reference: `Qentem.FmtSpec` (ISO C
@@ -426,6 +427,38 @@ example : realToString f64 [] 0x3F50624DD031FA00 3 fmtDefault = .ok [48, 46, 48,
 example : realToString f64 [] 0x3EE4F8A7CA737C05 2 fmtDefault = .ok [49, 101, 45, 48, 53] := by decide +kernel
 example : realToString f64 [] 0x0000000000000001 17 fmtDefault =
     .ok [52, 46, 57, 52, 48, 54, 53, 54, 52, 53, 56, 52, 49, 50, 52, 54, 53, 52, 101, 45, 51, 50, 52] := by decide +kernel
+
+/-- `format_eq_spec_float`: **the float half of `FormatEqSpec`, proved in full**: every `binary32` bit pattern, every
+precision ≤ 40, each format, any prior stream contents.  Same proof as for doubles — the generic lemmas are shared
+and the class theorems are instantiated with 23 mantissa bits, bias 127 and the 320-bit BigInt (`Shape f32 23 127`). -/
+theorem format_eq_spec_float (pre : List Nat) (bits p f : Nat) (hp : p ≤ 40) (hf : f ≤ 2) :
+    realToString f32 pre bits p f = .ok (pre ++ FmtSpec.format32 bits p (specFmt f)) := by
+  by_cases hs : Special32 bits
+  · exact special_values.2 pre bits p f hs (by omega)
+  · unfold Special32 at hs
+    have hfin : (bits / 2 ^ 23) % 2 ^ 8 ≠ 2 ^ 8 - 1 := fun h => hs (Or.inl h)
+    have hnz : (bits / 2 ^ 23) % 2 ^ 8 ≠ 0 ∨ bits % 2 ^ 23 ≠ 0 := by
+      by_contra hc
+      simp only [not_or, ne_eq, not_not] at hc
+      exact hs (Or.inr hc)
+    have h3 : f = 0 ∨ f = 1 ∨ f = 2 := by omega
+    rcases h3 with rfl | h12
+    · exact Qentem.Proofs.NumToStr.default_finite_32 pre bits p hp hfin hnz
+    · exact Qentem.Proofs.NumToStr.fixed_finite_32 pre bits p f h12 hp hfin hnz
+
+/-- **`format_eq_spec`: `FormatEqSpec` holds.**  For every double and every float, every precision up to 40 and
+each of the three formats, `Digit::NumberToString` (as modelled: BigInt pipeline, digit estimate table, string
+rounding, the two string formatters, with every index, length and BigInt access checked) appends exactly the
+reference text written from IEEE 754 and the C standard's `printf`, and no fault occurs. -/
+theorem format_eq_spec : FormatEqSpec :=
+  ⟨fun pre bits p f _ hp hf => format_eq_spec_double pre bits p f hp hf,
+   fun pre bits p f _ hp hf => format_eq_spec_float pre bits p f hp hf⟩
+
+/-- tests (kernel evaluation), floats: 0.1f at 9 digits; 16777216f Fixed 1; 1e-45f (smallest subnormal) at 3 -/
+example : realToString f32 [] 0x3DCCCCCD 9 fmtDefault =
+    .ok [48, 46, 49, 48, 48, 48, 48, 48, 48, 48, 49] := by decide +kernel
+example : realToString f32 [] 0x4B800000 1 fmtFixed = .ok [49, 54, 55, 55, 55, 50, 49, 54, 46, 48] := by decide +kernel
+example : realToString f32 [] 0x00000001 3 fmtDefault = .ok [49, 46, 52, 101, 45, 52, 53] := by decide +kernel
 
 /-- `format_eq_spec_partial`: `FormatEqSpec` restricted to the special classes.  The rest — every
 finite non-zero value — is open; see `notes/design-numtostr.md`. -/
